@@ -215,6 +215,9 @@ class C10(Prop):
             files[("f%d.txt" % (L + 2),)] = "STRING end"
             out.append(fcase(files, ("main.txt",), {"stack_limit": L}))
         out.append(comp("$STRING " + "(" * 101 + "1" + ")" * 101, {}))
+        # a loop that reaches the iteration limit: the error is located at the loop line
+        out.append(comp("PRINT p\n\nWHILE TRUE\n    PASS\n    STRING x", {}, expect_trace=[(None, 3, None)], timeout=120.0))
+        out.append(comp("FUNC f\n    IF TRUE\n        WHILE w,w>=0\n            PASS\nRUN f", {}, expect_trace=[(None, 5, 5), (None, 2, None), (None, 3, None)], timeout=120.0))
         return out
 
     def oracle(self, c, i):
@@ -231,9 +234,9 @@ class C10(Prop):
         exp = [tuple(e) for e in exp]
         if got != exp:
             return ("wrong_trace", "trace %r, the planted chain is %r" % (got, exp))
-        t5, t1 = trace_nums(i, "trace5"), trace_nums(i, "trace1")
-        if t5 != got[-5:] or t1 != got[-1:]:
-            return ("last_n_wrong", "stack_traceback(n) is not the n innermost entries")
+        t5, t1, t0 = trace_nums(i, "trace5"), trace_nums(i, "trace1"), trace_nums(i, "trace0")
+        if t5 != got[-5:] or t1 != got[-1:] or (t0 is not None and t0 != []):
+            return ("last_n_wrong", "stack_traceback(n) is not the n innermost entries (n = 5, 1, 0)")
         return None
 
 
@@ -254,6 +257,9 @@ class C11(Prop):
         bad = r.random() < 0.2
         if cmd.startswith("$") and base not in ("DELAY", "ENTER"):
             return r.choice(['"a"+1', "1+2", "v", '"x"', "3*2", '" lead"', '"trail "+v', '"  "', "nosuch" if bad else "7", "1/0" if bad else "2"])
+        if base in ("STRING", "STRINGLN") and r.random() < 0.3:
+            # typed text keeps its trailing blanks in every spelling
+            return (gen.rtext(r, r.randint(1, 5)).strip() or "t") + r.choice(["  ", " ", "\t", " \t "])
         if base in ("STRING", "STRINGLN", "REM", "PRINT", "FOO", "ALTSTRING", "ALTCODE"):
             return (gen.rtext(r, r.randint(1, 6)).strip() or "t")
         if base == "ALT":
@@ -267,7 +273,7 @@ class C11(Prop):
         if base in ("DELAY", "DEFAULT_DELAY"):
             return r.choice(["5", "10", "v+1", "-1" if bad else "0", "1.5" if bad else "20"])
         if base in ("ENTER", "WHITESPACE"):
-            return r.choice(["0", "1", "2", "3", "v", "100" if bad else "4", "-1" if bad else "5"])
+            return r.choice(["0", "1", "2", "3", "v", "100" if bad else "4", "-1" if bad else "5", "TRUE" if bad else "1", "1==1" if bad else "2"])
         if base == "ALTCHAR":
             return r.choice(["1", "0042", "9999", "12345" if bad else "7"])
         if base in ("EXIST", "NOTEXIST"):
@@ -331,8 +337,10 @@ class C11(Prop):
                        ('$STRING "a"+1', ["STRING a1"]), ("$STRING 4/2", ["STRING 2"]), ("$ALT \"es\"+\"c\"", ["ALT ESC"]), ("$FOO 1+1", ["FOO 2"]),
                        ("$STRINGLN TRUE", ["STRINGLN True"]), ("$ENTER 3", ["ENTER"] * 3), ("WHITESPACE 0", []), ("WHITESPACE", [""]), ("WHITESPACE 99", [""] * 99)]:
             out.append(comp(t, {"include_comments": True}, expect_out=exp))
-        for t in ["WHITESPACE 100", "WHITESPACE -1", "WHITESPACE 0-1"]:
+        for t in ["WHITESPACE 100", "WHITESPACE -1", "WHITESPACE 0-1", "WHITESPACE TRUE", "WHITESPACE FALSE", "WHITESPACE 1==1", "WHITESPACE\n    1\n    TRUE"]:
             out.append(comp(t, {}, expect_fail=True))
+        for t in ["$ENTER TRUE", "$ENTER 1==1", "$ENTER !(FALSE)", "VAR b TRUE\n$ENTER b", "$ENTER\n    1\n    FALSE"]:
+            out.append(comp(t, {}, expect_ce=True))
         # every form is compiled afresh wherever it stands: inside bodies run several times (loops, functions
         # run twice), and `$` on one line says nothing about the next line with the same word
         for t, exp in [("REPEAT 3\n    STRING a\n        b", ["STRING a", "STRING b"] * 3), ("FUNC f\n    STRING a\n        b\n        c\nRUN f\nRUN f", ["STRING a", "STRING b", "STRING c"] * 2),
@@ -350,6 +358,8 @@ class C11(Prop):
                 return ("form_wrong_output", "expected %r, got %s %r" % (c["expect_out"][:5], i["status"], out_text(i)[:5]))
         if c.get("expect_fail") and i["status"] == "OK":
             return ("count_out_of_range_accepted", "an out-of-range count was accepted")
+        if c.get("expect_ce") and i["status"] == "OK":
+            return ("boolean_count_accepted", "a boolean was accepted as a count: %r" % out_text(i)[:3])
         return None
 
     def witness_fails(self, w, k):
@@ -452,6 +462,16 @@ class C12(Prop):
             t = dict(T)
             t[("a", "main.txt")] = line + "\nSTRING after"
             out.append(fcase(t, ("a", "main.txt")))
+        # every name resolves on its own: names ending in t / x / ".", several names under one command each
+        # climbing from the importing file's folder (also inside a function defined in another file)
+        T2 = {("a", "main.txt"): "STRING main", ("a", "boot.txt"): "STRING boot", ("a", "boo.txt"): "STRING boo", ("a", "text.txt"): "STRING text", ("a", "te.txt"): "STRING te",
+              ("a", "lib", "next.txt"): "STRING next", ("a", "lib", "nex.txt"): "STRING nex", ("a", "tx.txt"): "STRING tx", ("above.txt",): "STRING above", ("a", "below", "below.txt"): "STRING below",
+              ("below", "below.txt"): "STRING wrong-below", ("a", "above.txt"): "STRING a-above", ("a", "lib", "uses.txt"): "FUNC imp\n    START\n        ..above\n        next\n        .boot"}
+        for line in ["START boot", "STARTENV lib.next", "START text", "STARTCODE tx", "START boot\n    text\n    lib.next", "START\n    .above\n    below.below", "START .above\n    below.below\n    boot",
+                     "STARTCODE\n    .above\n    above\n    ..a.boot\n    boot", "STARTENV lib.uses\nRUN imp"]:
+            t = dict(T2)
+            t[("a", "main.txt")] = line + "\nSTRING after"
+            out.append(fcase(t, ("a", "main.txt")))
         # a function defined in another folder resolves imports relative to its own file
         out.append(fcase({("m.txt",): "STARTENV d.defs\nRUN imp\nSTRING back", ("d", "defs.txt"): "FUNC imp\n    START sib\nVAR fromdefs 1", ("d", "sib.txt"): "STRING sibling\nVAR s 2",
                           ("sib.txt",): "STRING wrong"}, ("m.txt",), expect_out=["STRING sibling", "STRING back"]))
@@ -536,7 +556,11 @@ def _c12_relative_entry(viol_out):
         open(os.path.join(base, "proj", "app", "main.txt"), "w").write("START .lib.tools\nSTART sub.x\nSTRING main")
         open(os.path.join(base, "proj", "app", "sub", "x.txt"), "w").write("START ..lib.tools\nSTRING x")
         open(os.path.join(base, "proj", "lib", "tools.txt"), "w").write("STRING tools")
-        want = ds.Compiler().compile_file(os.path.join(base, "proj", "app", "main.txt")).output
+        try:
+            want = ds.Compiler().compile_file(os.path.join(base, "proj", "app", "main.txt")).output
+        except Exception as e:
+            viol_out.append(({"kind": "relative-entry", "file": "proj/app/main.txt"}, "relative_entry_path_differs", "a valid three-file project fails to compile through its absolute path: %s: %s" % (type(e).__name__, e)))
+            return ev
         for cwd, rel in ((os.path.join(base, "proj", "app"), "main.txt"), (os.path.join(base, "proj"), "app/main.txt"), (base, "proj/app/main.txt")):
             os.chdir(cwd)
             ev += 1
@@ -597,6 +621,18 @@ class C13(Prop):
                 lines += ["REPEAT 2", "    PASS", "WHILE w,w<1", "    PASS"]
             elif pre == 3:
                 lines += ["FUNC own%d" % f, "    PASS", "RUN own%d" % f]
+            mine = [b for (a, b) in edges if a == f]
+            if pre == 4 and len(mine) >= 2 and not infunc:
+                # one command: the first target inline, the others as an argument group
+                nm = [("f%d" % b) if not climb else (".d.f%d" % b) for b in mine]
+                lines += ["%s %s" % (kind, nm[0])] + ["    " + x for x in nm[1:]]
+                files[("d", "f%d.txt" % f)] = "\n".join(lines)
+                continue
+            if pre == 5 and len(mine) >= 1 and not infunc:
+                nm = [("f%d" % b) if not climb else (".d.f%d" % b) for b in mine]
+                lines += [kind] + ["    " + x for x in nm]
+                files[("d", "f%d.txt" % f)] = "\n".join(lines)
+                continue
             for (a, b) in edges:
                 if a == f:
                     name = ("f%d" % b) if not climb else (".d.f%d" % b)
@@ -626,6 +662,8 @@ class C13(Prop):
                 out.append(self.mkcase(edges, entry, nfiles, kind, r.random() < 0.3, r.random() < 0.25))
                 if r.random() < 0.4:
                     out.append(self.mkcase(edges, entry, nfiles, kind, r.random() < 0.3, False, pre=r.choice([1, 2, 3])))
+                if r.random() < 0.4:
+                    out.append(self.mkcase(edges, entry, nfiles, kind, False, r.random() < 0.25, pre=r.choice([4, 5])))
         # files that never run a line, or end a WHILE on a false condition, imported twice / along two paths
         for leaf in ("", "   \n\n", "VAR k 0\nWHILE k<0\n    PASS\nIF TRUE\n    STRING leaf", "WHILE FALSE\n    PASS\nREPEAT 1\n    STRING leaf"):
             exp_leaf = ["STRING leaf"] if "leaf" in leaf else []
@@ -682,6 +720,31 @@ class C13(Prop):
                 got = "CRASH " + type(e).__name__
             if got != "CircularStructureError":
                 viol.append(({"kind": "conditional-cycle"}, "cycle_not_rejected_second_time", "a cycle closed by a START line that ran before gave %s" % got))
+            # every spelling of the ENTRY path: a diamond and a cycle whose edges climb out of the folder and back in,
+            # entered through a relative path from the project folder, from its parent and from inside
+            shutil.rmtree(base, ignore_errors=True)
+            os.makedirs(os.path.join(base, "proj"))
+            for nm, txt in (("a", "STRING a\nSTART .proj.b\nSTART .proj.c"), ("b", "STRING b\nSTART .proj.d"), ("c", "STRING c\nSTART .proj.d"), ("d", "STRING d"),
+                            ("p", "STRING p\nSTART .proj.q"), ("q", "STRING q\nSTART .proj.p")):
+                open(os.path.join(base, "proj", nm + ".txt"), "w").write(txt)
+            old = os.getcwd()
+            try:
+                for entry, want in (("a", "OK"), ("p", "CircularStructureError")):
+                    for cwd, rel in ((os.path.join(base, "proj"), entry + ".txt"), (base, "proj/" + entry + ".txt"), ("/", os.path.join(base, "proj", entry + ".txt"))):
+                        os.chdir(cwd)
+                        ev += 1
+                        try:
+                            ds.Compiler(ds.CompileOptions(stack_limit=30)).compile_file(rel)
+                            got = "OK"
+                        except ds.CompilationError as e:
+                            got = type(e).__name__
+                        except Exception as e:
+                            got = "CRASH " + type(e).__name__
+                        if got != want:
+                            viol.append(({"kind": "entry-spelling", "cwd": cwd, "file": rel}, "entry_path_spelling_matters",
+                                         "compile_file(%r) from %s gives %s, expected %s" % (rel, cwd, got, want)))
+            finally:
+                os.chdir(old)
         finally:
             shutil.rmtree(base, ignore_errors=True)
         return {"violations": viol, "evaluations": ev, "summary": {"cycle_replays": ev}}
@@ -764,6 +827,25 @@ class C14(Prop):
                     out.append(comp(t, {"stack_limit": L}, expect=("OK" if tail[-1] == "STRING bottom" and not tail[0].startswith("WHILE") else None), timeout=60.0, construct="untaken-" + kind, depth=L - 1))
             out.append(comp("FUNC f n\n  IF n>0\n    RUN f n-1\n  STRING x\nRUN f %d" % ((L - 2) // 2), {"stack_limit": L}, expect=None, timeout=60.0, construct="guarded", depth=L))
             out.append(comp("FUNC f n\n  IF n>0\n    RUN f n-1\n  STRING x\nRUN f %d" % ((L - 1) // 2), {"stack_limit": L}, expect=None, timeout=60.0, construct="guarded", depth=L))
+        # an imported file counts as a level whatever it contains (also nothing); the parenthesis limit is about
+        # NESTING: many groups side by side, and parentheses inside strings, are not deep
+        for L in (5, 6, 11, 20):
+            for leaf in ("", "\n\n", "   \n"):
+                for imp in ("START", "STARTENV", "STARTCODE"):
+                    for k, exp in ((L - 1, "OK"), (L, "SO")):
+                        files = {}
+                        for d in range(1, k):
+                            files[("c%d.txt" % d,)] = "START c%d" % (d + 1)
+                        files[("c%d.txt" % k,)] = leaf
+                        files[("main.txt",)] = "START c1"
+                        if k >= 2:
+                            files[("c%d.txt" % (k - 1),)] = "%s c%d" % (imp, k)
+                        else:
+                            files[("main.txt",)] = "%s c1" % imp
+                        out.append(fcase(files, ("main.txt",), {"stack_limit": L}, expect=exp, timeout=60.0, construct="blank-leaf", depth=k))
+        for e in ["(" + "+".join(["(1)"] * 120) + ")", "(" + "+".join(["((1))"] * 60) + ")*1", "(\"" + "(" * 150 + "\")", "1+(" + "*".join(["(2-1)"] * 101) + ")"]:
+            out.append(comp("$STRING " + e, {}, expect="OK"))
+            out.append(comp("VAR q " + e + "\nIF TRUE\n  $STRING q", {}, expect="OK"))
         for L in ([100, 199, 200] if tier != "thorough" else [100, 120, 140, 160, 180, 190, 199, 200]):
             for kind in ("if", "run", "start"):
                 for k in (L - 1, L):
@@ -1241,6 +1323,29 @@ class C17(Prop):
                                  "a valid import gives %s %s after an earlier compilation (%s)" % (got.get("status"), got.get("err", ""), first)))
         finally:
             shutil.rmtree(root, ignore_errors=True)
+        # the nested-list input form: compiling must not consume or change the caller's lists (the same list
+        # object compiled twice, and one block list shared by two programs)
+        try:
+            body = ["STRING in", "VAR q 1"]
+            src = ["STRING a", "REPEAT 2", body, "IF TRUE", ["STRING t"], "DELAY -1"]
+            good = ["STRING a", "REPEAT 2", body, "STRING z"]
+            import copy
+            for source in (good, src):
+                snap = copy.deepcopy(source)
+                r1 = rec(lambda: ds.Compiler().compile(source, skip_indentation=True))
+                r2 = rec(lambda: ds.Compiler().compile(source, skip_indentation=True))
+                ev += 2
+                if source != snap:
+                    viol.append(({"kind": "list-form", "source": snap}, "source_list_modified", "compiling the nested-list form changed the caller's list: %r" % (source,)))
+                elif json.dumps(r1, sort_keys=True) != json.dumps(r2, sort_keys=True):
+                    viol.append(({"kind": "list-form", "source": snap}, "history_dependence", "the same list source compiled twice gives %s then %s" % (r1.get("status"), r2.get("status"))))
+            other = rec(lambda: ds.Compiler().compile(["IF 1 > 0", body, "STRING end"], skip_indentation=True))
+            fresh = rec(lambda: ds.Compiler().compile(["IF 1 > 0", ["STRING in", "VAR q 1"], "STRING end"], skip_indentation=True))
+            ev += 2
+            if json.dumps(other, sort_keys=True) != json.dumps(fresh, sort_keys=True):
+                viol.append(({"kind": "list-form", "source": ["IF 1 > 0", ["STRING in", "VAR q 1"], "STRING end"]}, "history_dependence", "a block list shared with an earlier program compiles differently"))
+        except Exception as e:
+            viol.append(({"kind": "list-form"}, "history_dependence", "list-form compilation raised %s" % type(e).__name__))
         # a compilation must not change the caller's options object (shared between Compiler instances)
         import yaml, shutil
         ds = common.impl()["ds"]
@@ -1471,6 +1576,37 @@ class C19(Prop):
                             viol.append((case, "new_wrong_content", "the new project does not compile to the hello-world line under default options"))
         finally:
             shutil.rmtree(base, ignore_errors=True)
+        # a function defined in a library folder: a failure inside it is reported at the library file and line, and
+        # an import made by the function resolves from the library's folder (the project compiles and is written)
+        try:
+            shutil.rmtree(base, ignore_errors=True)
+            home = os.path.join(base, "home")
+            proj = os.path.join(base, "proj")
+            os.makedirs(home)
+            os.makedirs(os.path.join(proj, "lib"))
+            open(os.path.join(proj, "lib", "tools.txt"), "w").write("\n" * 9 + "FUNC boom\n    PRINT inboom\n    DELAY -1\nFUNC pull\n    START helper\n")
+            open(os.path.join(proj, "lib", "helper.txt"), "w").write("STRING from-helper")
+            open(os.path.join(proj, "helper.txt"), "w").write("STRING wrong-helper")
+            open(os.path.join(proj, "bad.txt"), "w").write("STARTENV lib.tools\nSTRING a\nRUN boom")
+            open(os.path.join(proj, "good.txt"), "w").write("STARTENV lib.tools\nRUN pull\nSTRING end")
+            res = self.run_cli({"cmd": "compile", "cwd": proj, "file": "bad.txt", "output": "out1.txt", "comments": False, "stack_limit": 20}, home)
+            ev += 1
+            so = res.get("stdout") or ""
+            case = {"kind": "cli-lib", "file": "bad.txt"}
+            if res.get("raised"):
+                viol.append((case, "cli_raises:" + res["raised"].split(":")[0], "the compile command raised %s" % res["raised"]))
+            elif "tools.txt" not in so or "line 12" not in so or os.path.exists(os.path.join(proj, "out1.txt")):
+                viol.append((case, "error_location_wrong", "a failure inside a library function must be reported at lib/tools.txt line 12 and write nothing; report: %r" % so[-400:]))
+            res = self.run_cli({"cmd": "compile", "cwd": proj, "file": "good.txt", "output": "out2.txt", "comments": False, "stack_limit": 20}, home)
+            ev += 1
+            case = {"kind": "cli-lib", "file": "good.txt"}
+            got = open(os.path.join(proj, "out2.txt")).read() if os.path.exists(os.path.join(proj, "out2.txt")) else None
+            if res.get("raised"):
+                viol.append((case, "cli_raises:" + res["raised"].split(":")[0], "the compile command raised %s" % res["raised"]))
+            elif got != "STRING from-helper\nSTRING end":
+                viol.append((case, "output_file_wrong", "a project whose library function imports a sibling of the library must compile to 'STRING from-helper / STRING end'; output file: %r" % (got,)))
+        finally:
+            shutil.rmtree(base, ignore_errors=True)
         # histories of CLI invocations against the model's cli_run (Model/CliWorld.v): per-invocation
         # reports, every text file, every config.yaml (key set and values), the global config, directories
         import clihist
@@ -1517,6 +1653,15 @@ class C20(Prop):
         for t in ["FUNC f a,\n    PASS", "FUNC f a,b,\n    PASS", "FUNC f a, b ,\n    PASS", "FUNC f ,a\n    PASS", "FUNC f a,,\n    PASS"]:
             out.append(comp(t, {}, define=""))
         out.append(comp("REPEAT 1a,0\n    PASS", {}, define="1a", zero_iter=True))
+        for nm in ("$i", "$DEFAULT_DELAY", "$"):
+            for cnt in ("0", "1-1", "1"):
+                out.append(comp("REPEAT %s,%s\n    PASS" % (nm, cnt), {}, define=nm, zero_iter=(cnt != "1")))
+                out.append(comp("FOR %s,%s\n    PASS" % (nm, cnt), {}, define=nm, zero_iter=(cnt != "1")))
+        # an accepted name exists whatever value it holds
+        for val in ("0", "5-5", "0.0", "\"\"", "FALSE", "1==2"):
+            out.append(comp("VAR z %s\nEXIST z\nSTRING ok" % val, {}, expect_status="OK"))
+            out.append(comp("FUNC f p\n    EXIST p\n    STRING ok\nRUN f %s" % val, {}, expect_status="OK"))
+        out.append(comp("REPEAT i,2\n    EXIST i\n    STRING ok\nWHILE w,w<1\n    EXIST w", {}, expect_status="OK"))
         out.append(comp("VAR $x 1", {}, define="$x"))
         out.append(comp("VAR $DEFAULT_DELAY 5", {}, define="$DEFAULT_DELAY"))
         return out
@@ -1561,6 +1706,8 @@ class C20(Prop):
         return cases
 
     def oracle(self, c, i):
+        if c.get("expect_status") == "OK" and i["status"] == "CE":
+            return ("accepted_name_not_existing", "EXIST fails on a defined name: %s %s" % (i.get("err"), i.get("msg", "")))
         if c["kind"] == "isvar":
             want = bool(IDENT.match(c["name"]))
             if i["status"] == "OK" and i["value"] != want:
